@@ -96,9 +96,32 @@ impl<'a> Obs<'a> {
     pub fn multiset(&self) -> Vec<Violation> {
         let mut exp: HashMap<ExpEv, i64> = HashMap::new();
         let mut optional: HashMap<ExpEv, i64> = HashMap::new();
+        // captures written inside a wrapper body: whether they run when the wrapper's closure is
+        // never invoked is C11's business (hoisting); here they may happen 0 or 1 times
+        let mut in_wrapper: std::collections::HashSet<u32> = std::collections::HashSet::new();
+        for b in &self.prog.branches {
+            for cell in &b.steps {
+                for a in cell {
+                    if let Some(inner) = &a.wrap {
+                        let mut v = Vec::new();
+                        crate::model::all_acts(inner, &mut v);
+                        for x in v {
+                            if let Some(c) = &x.cap {
+                                in_wrapper.insert(c.id);
+                                in_wrapper.insert(x.id);
+                            }
+                        }
+                    }
+                }
+            }
+        }
         for (s, se) in self.exp.steps.iter().enumerate() {
             for e in &se.caps {
-                *exp.entry(e.clone()).or_default() += 1;
+                if in_wrapper.contains(&e.id) {
+                    *optional.entry(e.clone()).or_default() += 1;
+                } else {
+                    *exp.entry(e.clone()).or_default() += 1;
+                }
             }
             let partial = self.step_may_be_partial(s);
             for bs in se.branches.iter().flatten() {
